@@ -126,7 +126,10 @@ func genFatCfg(r *core.Rng, tier string, t *core.Trace) {
 	var size int64
 	switch ft {
 	case 12:
-		switch r.PickW(40, 30, 20, 10) {
+		switch r.PickW(38, 28, 18, 9, 7) {
+		case 4:
+			// just below the sizes at which the cluster size doubles: the cluster count is at its largest there
+			size = core.PickOf[int64](r, 8, 16, 32, 64, 128)<<20 - 512*r.Range(1, 64)
 		case 0:
 			size = r.Range(16, 200) << 10
 		case 1:
